@@ -73,14 +73,17 @@ type Task struct {
 	// the baton), stArrived (back from it, waiting for the baton).
 	state     int32
 	keptBaton bool
-	selRot    int    // rotation of the case order of the select being polled
-	blockedAt string // label of the blocking operation the task is in (or was last in)
+	selRot    int     // rotation of the case order of the select being polled
+	blockedAt string  // label of the blocking operation the task is in (or was last in)
+	condKey   uintptr // the sync.Cond the task waits on (stCondWait)
+	condSeq   uint64  // arrival order among the waiters (Signal wakes the earliest)
 }
 
 const (
 	stRunnable int32 = iota
 	stLimbo
 	stArrived
+	stCondWait // waiting on a simulated sync.Cond (parked by the kernel, not by the runtime)
 )
 
 // Switch is one recorded context switch.
@@ -137,6 +140,8 @@ type Sched struct {
 
 	held             [maxTasks]int
 	SkippedUnderLock int
+	condSeq          uint64
+	CondWaits        int  // waits on a simulated sync.Cond
 	Resumed          int  // scheduling resumed after every live task had been blocked (a waiter woken from outside, e.g. by a timer)
 	Selects          int  // select statements whose case order was drawn
 	BlockOps         int  // possibly blocking operations bracketed
@@ -671,6 +676,82 @@ func (s *Sched) SelNext(i, k int) int {
 	return (t.selRot + i) % k
 }
 
+// CondWait parks the running task until CondSignal/CondBroadcast on the same
+// key has chosen it and the scheduler has picked it again. It is the kernel's
+// own implementation of sync.Cond.Wait (the caller has released the Cond's
+// mutex before and takes it again afterwards): with the real one, the waiters
+// woken by a Broadcast would race for the mutex and the runtime, not the
+// tape, would decide who goes on first.
+//
+//go:norace
+func (s *Sched) CondWait(key uintptr, label string) {
+	if !s.active {
+		return
+	}
+	t := s.tasks[s.cur]
+	if curGoid() != t.goid {
+		s.Foreign = true
+		return
+	}
+	s.pollRace(t, label)
+	raceDisable()
+	s.Yields++
+	s.CondWaits++
+	s.mixHash(t.ID, KindLock, label)
+	if s.Yields > s.cfg.MaxYields || s.tape.Over {
+		s.Aborted = true
+	}
+	s.condSeq++
+	t.condKey, t.condSeq, t.blockedAt = key, s.condSeq, label
+	atomic.StoreInt32(&t.state, stCondWait)
+	next := s.pick(nil, KindOp, label)
+	if next == nil {
+		// every other task is blocked too: only a waiter woken from outside
+		// the simulator (a timer) can get things going again; Run watches
+		atomic.StoreInt32(&s.allBlocked, 1)
+	} else {
+		s.SwitchCount++
+		s.MidOpSwitch++
+		if s.nsw < len(s.switches) {
+			s.switches[s.nsw] = Switch{Step: s.Yields, From: t.ID, To: next.ID, Kind: KindLock, Label: label}
+			s.nsw++
+		}
+		s.cur = next.ID
+		atomic.StoreInt32(&next.state, stRunnable)
+		next.wake <- struct{}{}
+	}
+	<-t.wake
+	raceEnable()
+}
+
+// CondSignal makes the earliest waiter on key runnable (all of them if
+// broadcast). Which of several runnable tasks continues is the scheduler's
+// choice, as for any other yield.
+//
+//go:norace
+func (s *Sched) CondSignal(key uintptr, broadcast bool) {
+	if !s.active {
+		return
+	}
+	for {
+		var first *Task
+		for i := 0; i < s.n; i++ {
+			u := s.tasks[i]
+			if !u.done && atomic.LoadInt32(&u.state) == stCondWait && u.condKey == key && (first == nil || u.condSeq < first.condSeq) {
+				first = u
+			}
+		}
+		if first == nil {
+			return
+		}
+		first.wakeAt = s.now
+		atomic.StoreInt32(&first.state, stRunnable)
+		if !broadcast {
+			return
+		}
+	}
+}
+
 // BlockBegin is called by the running task immediately before an operation
 // of the code under test that may block until another task acts (channel
 // receive/send, select without default, Wait). The task gives the baton away
@@ -965,7 +1046,7 @@ func (s *Sched) BlockedTasks() (ids []int, labels []string) {
 		if u.done {
 			continue
 		}
-		if atomic.LoadInt32(&u.state) == stLimbo || u.keptBaton {
+		if st := atomic.LoadInt32(&u.state); st == stLimbo || st == stCondWait || u.keptBaton {
 			ids = append(ids, u.ID)
 			labels = append(labels, u.blockedAt)
 		}
